@@ -149,6 +149,26 @@ def run(facts, tr, rep):
     rep.ob("C18.THRESHOLDS", skey(b, "targets"), seen_targets == {"Healthy", "Degraded", "Unhealthy"}, g.where(arms_sw.bb),
            "each of Healthy / Degraded / Unhealthy has its publication site" if seen_targets == {"Healthy", "Degraded", "Unhealthy"} else
            "publication sites cover %s" % sorted(str(x) for x in seen_targets))
+    # COUNT-ONCE: one check result is counted once — from a recorder call no second recorder call is reachable before
+    # the task waits for the next interval (the iteration boundary: the awaits on a Sleep / Interval tick)
+    recs_all = [c for c in g.calls() if role_of(c) in ("record_success", "record_failure")]
+    boundary = set()
+    for a in g.awaits():
+        if any(k_ in a.fut_ty["s"] for k_ in ("Sleep", "Interval", "Tick")):
+            boundary.add(a.into_bb)
+    for k_, r1 in enumerate(recs_all):
+        again = []
+        if r1.target is not None:
+            r_ = g.reach([r1.target], kinds=(N,), avoid_nodes=list(boundary))
+            again = [r2 for r2 in recs_all if r2.bb in r_]
+        # a body that handles one check per invocation has no boundary inside it: then the recorder must not sit in a cycle
+        cyc = (not boundary) and g.in_cycle(r1.bb)
+        rep.ob("C18.COUNT-ONCE", skey(b, "%s#%d" % (role_of(r1), k_)), not again and not cyc, r1.where(),
+               "after this %s() no further counter update happens for the same check result" % role_of(r1) if not again and not cyc else
+               ("this %s() sits in a loop that does not wait for the next interval" % role_of(r1) if cyc else
+                "after this %s() the same check result reaches %s() at %s: one result is counted twice, so a threshold of n is reached "
+                "after fewer than n consecutive results" % (role_of(r1), role_of(again[0]), again[0].where())))
+    rep.floor("C18.recorder-sites", len(recs_all), 3)
     # unknown arm: no write reachable inside the arm
     utgt = arms_sw.variants["Unknown"]
     other_tgts = {arms_sw.variants[v] for v in ("Healthy", "Degraded", "Unhealthy")}
